@@ -207,6 +207,11 @@ func discharge(o Obligation, dir string, thorough bool, timeout time.Duration) R
 		if (sp.name == solverZ3NewAuto.name || sp.name == solverZ3OldAuto.name) && to > 2*time.Second {
 			to = 2 * time.Second // the default configurations answer within a fraction of a second when they answer at all
 		}
+		if sp.name == solverCVC5.name && quickGiveUps(res.Attempts) {
+			// every z3 configuration gave up at once ("unknown": e-matching found no further instance): the time they
+			// did not use goes to cvc5, which decides some quantifier alternations the others do not
+			to = timeout
+		}
 		b := runOne(sp, dir, base, o.Query, to)
 		res.Attempts = append(res.Attempts, b)
 		res.Secs += b.Secs
@@ -227,6 +232,21 @@ func discharge(o Obligation, dir string, thorough bool, timeout time.Duration) R
 		}
 	}
 	return res
+}
+
+// quickGiveUps: the e-matching configurations (the first attempt of each z3 build) answered "unknown" rather than
+// running out of time.
+func quickGiveUps(atts []Attempt) bool {
+	n := 0
+	for _, a := range atts {
+		if a.Solver == solverZ3New.name || a.Solver == solverZ3Old.name {
+			if a.Verdict != "unknown" {
+				return false
+			}
+			n++
+		}
+	}
+	return n >= 2
 }
 
 // pool runs obligations as they are produced.
